@@ -400,6 +400,18 @@ fn main() {
                 def.spaces.push(Space::new(&name, len, move |idx, l| run_case(vi, &b, idx, l), move |idx| describe(vi, &b, idx)).chunked(4096));
             }
         }
+        // both tiers: longer stacks over a three-value alphabet (0, 4095, an address inside a function), no CFI: room
+        // for a scanner or a frame-pointer step that lands several words away from where it should
+        {
+            const NO_CFI: &[u64] = &[0, 1];
+            let lg = Bounds { n: 8, k: 3, nctx: 2, nvalid: 3, nmod: 2, nplace: 2, syms: NO_CFI, tagged: false };
+            for (vi, (arch, os)) in VARIANTS5.iter().enumerate() {
+                let b = lg;
+                let len = b.k.pow(b.n) * b.nctx * b.nvalid * nsym(*arch, &b) * b.nmod * b.nplace;
+                let name = format!("long-stacks-{}-{}", arch.name(), os_name(*os));
+                def.spaces.push(Space::new(&name, len, move |idx, l| run_case(vi, &b, idx, l), move |idx| describe(vi, &b, idx)).chunked(4096));
+            }
+        }
         if !quick {
             for (vi, (arch, os)) in VARIANTS5.iter().enumerate() {
                 let b = extras;
